@@ -57,7 +57,7 @@ func tables() []*authx.Spec {
 
 func run(c *vf.Ctx) {
 	c.Rule("(1) every request history over the alphabet up to the stated depth x 4 callback tables x MaxAuthTries in {-1,1,2,3,6}; (2) every word of length <= 2 over the alphabet repeated to 140 requests x 3 tables x the same MaxAuthTries values, " +
-		"plus boundary histories X^n Y with n in {125..130}; (3) source-address lists x client addresses x 7 ways a callback returns Permissions; (4) MaxAuthTries {0,1,2,3,6,-1} and source-address end to end through NewServerConn. " +
+		"plus boundary histories X^n Y with n in {125..130}; (3) source-address lists x client addresses x 7 ways a callback returns Permissions; (3b) source-address value from PublicKeyCallback {matching, non-matching, malformed, empty, absent} x VerifiedPublicKeyCallback {absent, same Permissions, fresh without option, fresh nil, fresh matching, fresh non-matching, rejects} x every history to depth 3 (thorough 4) over 12 publickey letters of both users (cache hits, evictions, user switches); (4) MaxAuthTries {0,1,2,3,6,-1} and source-address end to end through NewServerConn. " +
 		"Each execution of the real serverAuthenticate is walked through the reference automaton; one transition = one request; a state = (table, MaxAuthTries, callback set, partial flag, locked user, failures, requests, none seen, last PublicKeyCallback decision)")
 	c.Assume("crypto/ed25519, crypto/rsa of the standard library (signature validity in the model); net/netip (source-address model)")
 	c.Assume("MaxAuthTries = 0 is only exercised through NewServerConn, which turns it into 6; the scripted-transport hook passes the configuration to serverAuthenticate unchanged")
@@ -89,7 +89,10 @@ func run(c *vf.Ctx) {
 		if c.Expired() {
 			break
 		}
-		post := func(spec *authx.Spec, hist []authx.Item, r *authx.Run) { lastKeyRule(c, fx, spec, hist, r) }
+		post := func(spec *authx.Spec, hist []authx.Item, r *authx.Run) {
+			lastKeyRule(c, fx, spec, hist, r)
+			srcRule(c, fx, spec, authx.DefaultRemote, hist, r)
+		}
 		authx.Explore(c, "C33", t, fx, alpha, pre, fullDepth, st, post)
 		if coreDepth > 0 {
 			authx.Explore(c, "C33", t, fx, core, pre, coreDepth, st, post)
@@ -107,6 +110,7 @@ func run(c *vf.Ctx) {
 	periodic(c, fx, long, pre, tbl)
 	boundaries(c, fx, alpha, pre)
 	sourceAddress(c, fx, alpha, pre)
+	pubkeySourceAddress(c, fx, alpha, pre)
 	endToEnd(c, fx, alpha)
 
 	c.Sample(map[string]any{"table": "mixed max=2", "history": "none@alice ; pw-bad@alice ; kbd-ok@alice ; pw-ok@alice",
@@ -373,6 +377,103 @@ func sourceAddress(c *vf.Ctx, fx *authx.Fixture, alpha []authx.Item, pre map[str
 	st.Flush(c, "source_address")
 }
 
+// srcRule is the plain reading of "enforces a source-address critical option returned with
+// any successful Permissions" for a run that succeeded: the Permissions returned must admit
+// the client, and so must the Permissions the last PublicKeyCallback invocation returned
+// when the success is a publickey one (they are "successful Permissions" too, whether or not
+// VerifiedPublicKeyCallback replaces them and whether or not the decision came from the cache).
+func srcRule(c *vf.Ctx, fx *authx.Fixture, spec *authx.Spec, remote net.Addr, hist []authx.Item, r *authx.Run) {
+	if r.Panic != "" || !r.Obs.Success || r.Obs.Consumed == 0 {
+		return
+	}
+	bad := func(what string, iv ref.Invocation) {
+		c.Violation("source-address critical option returned by "+what+" is not enforced: a client outside the list was authenticated",
+			map[string]any{"config": spec.Name, "history": authx.Names(hist), "client": fmt.Sprint(remote), "invocation": iv.String()})
+	}
+	log := r.Obs.Log
+	for i := len(log) - 1; i >= 0; i-- { // the callback whose Permissions were returned
+		if log[i].Out == ref.OutAccept && log[i].PermsOut == r.Obs.PermsID && r.Obs.PermsID != 0 {
+			if log[i].HasSrc && ref.SourceAddressVerdict(remote, log[i].Src) != ref.SrcAllow {
+				bad("the final successful callback ("+log[i].Kind.String()+")", log[i])
+			}
+			break
+		}
+	}
+	q := ref.ParseRequest(r.Obs.Packets[r.Obs.Consumed-1], authx.SeamSID, authx.Allowed, fx.Resolver)
+	if !q.IsRequest || q.Method != ref.MPublicKey {
+		return
+	}
+	for i := len(log) - 1; i >= 0; i-- {
+		if log[i].Kind == ref.CBPublicKey {
+			if log[i].Out == ref.OutAccept && log[i].HasSrc && ref.SourceAddressVerdict(remote, log[i].Src) != ref.SrcAllow {
+				bad("PublicKeyCallback for the authenticating key", log[i])
+			}
+			c.Outcome("publickey-success:source-address-of-PublicKeyCallback-checked")
+			return
+		}
+	}
+}
+
+// pubkeySourceAddress enumerates the region where the source-address option comes from
+// PublicKeyCallback and the decision may be served from the public key cache:
+// source-address value {matching, not matching, malformed, empty, absent} x
+// VerifiedPublicKeyCallback {absent, returns the same Permissions, fresh Permissions without
+// the option, fresh with a matching option, fresh with a non-matching option, rejects} x every
+// history up to depth 3 (4 in thorough) over the publickey letters of both users (queries and
+// signed requests for two accepted keys, a key accepted for one user only, the RSA key, a
+// rejected key: query->signed, signed->signed, query->query->signed, another key or another
+// user in between, ...).
+func pubkeySourceAddress(c *vf.Ctx, fx *authx.Fixture, alpha []authx.Item, pre map[string][][]byte) {
+	str := func(s string) *string { return &s }
+	srcs := []struct {
+		name string
+		v    *string
+	}{{"match", str(authx.SrcMatchCIDR)}, {"nomatch", str(authx.SrcNoMatch)}, {"malformed", str(authx.SrcMalformed)}, {"empty", str(authx.SrcEmpty)}, {"absent", nil}}
+	vers := []struct {
+		name string
+		o    *authx.Outcome
+	}{
+		{"absent", nil},
+		{"same-perms", &authx.Outcome{Kind: ref.OutAccept, SamePerms: true}},
+		{"fresh-no-option", authx.Accept()},
+		{"fresh-nil", authx.AcceptNil()},
+		{"fresh-matching", authx.AcceptSrc(authx.SrcMatchIP)},
+		{"fresh-nonmatching", authx.AcceptSrc(authx.SrcNoMatch)},
+		{"rejects", authx.Reject()},
+	}
+	var letters []authx.Item
+	for _, n := range []string{"query-K1@alice", "signed-K1@alice", "query-K2@alice", "signed-K2@alice", "query-K2@bob", "signed-K2@bob",
+		"query-K1@bob", "signed-K1@bob", "signed-KR@alice", "query-K3@alice", "signed-K1-badsig@alice", "pw-ok@alice"} {
+		letters = append(letters, item(alpha, n))
+	}
+	depth := 3
+	if c.Thorough {
+		depth = 4
+	}
+	st := authx.NewStats()
+	n := 0
+	for _, sv := range srcs {
+		for _, vv := range vers {
+			if c.Expired() {
+				break
+			}
+			pk := &authx.Outcome{Kind: ref.OutAccept, Src: sv.v}
+			spec := &authx.Spec{Name: fmt.Sprintf("PublicKeyCallback source-address %s, VerifiedPublicKeyCallback %s", sv.name, vv.name),
+				MaxAuthTries: -1, Sets: []authx.SetSpec{{PublicKey: pk}}, Verified: vv.o}
+			n++
+			post := func(sp *authx.Spec, hist []authx.Item, r *authx.Run) {
+				lastKeyRule(c, fx, sp, hist, r)
+				srcRule(c, fx, sp, authx.DefaultRemote, hist, r)
+			}
+			authx.Explore(c, "C33", spec, fx, letters, pre, depth, st, post)
+		}
+	}
+	c.Set("pubkey_source_address_configs", n)
+	c.Set("pubkey_source_address_letters", len(letters))
+	c.Set("pubkey_source_address_depth", depth)
+	st.Flush(c, "pubkey_source_address")
+}
+
 // endToEnd drives NewServerConn: MaxAuthTries including the default, the cap on failures
 // with the free none, user change after partial success, source-address of the real
 // connection's remote address.
@@ -425,6 +526,17 @@ func endToEnd(c *vf.Ctx, fx *authx.Fixture, alpha []authx.Item) {
 			s := &authx.Spec{Name: fmt.Sprintf("source-address %q client %v", l, rm), MaxAuthTries: 0, Remote: rm, NoClientAuth: true, None: authx.AcceptSrc(l),
 				Sets: []authx.SetSpec{{Password: authx.AcceptSrc(l), PublicKey: authx.AcceptSrc(l), Kbd: authx.AcceptSrc(l)}}}
 			for _, h := range [][]string{{"none@alice"}, {"pw-ok@alice"}, {"kbd-ok@alice"}, {"query-K1@alice", "signed-K1@alice"}} {
+				jobs = append(jobs, job{s, rep(1, h...)})
+			}
+		}
+	}
+	for _, l := range []string{authx.SrcNoMatch, authx.SrcMatchCIDR, authx.SrcEmpty} {
+		for vi, v := range []*authx.Outcome{nil, authx.Accept(), {Kind: ref.OutAccept, SamePerms: true}, authx.AcceptSrc(authx.SrcMatchIP)} {
+			s := &authx.Spec{Name: fmt.Sprintf("PublicKeyCallback source-address %q, VerifiedPublicKeyCallback variant %d", l, vi), MaxAuthTries: 0,
+				Sets: []authx.SetSpec{{PublicKey: authx.AcceptSrc(l)}}, Verified: v}
+			for _, h := range [][]string{{"signed-K1@alice"}, {"query-K1@alice", "signed-K1@alice"}, {"signed-K1@alice", "signed-K1@alice"},
+				{"query-K1@alice", "query-K1@alice", "signed-K1@alice"}, {"query-K1@alice", "query-K2@alice", "signed-K1@alice"},
+				{"query-K2@alice", "signed-K2@bob", "signed-K2@alice"}, {"signed-K2@bob", "signed-K2@bob"}} {
 				jobs = append(jobs, job{s, rep(1, h...)})
 			}
 		}
